@@ -10,6 +10,6 @@ for d in sorted(glob.glob("/verif/seeded/*/")):
     det = ", ".join("%s" % p for p, c in sorted(runs.items()) if c["exit"] == 1) or "-"
     miss = ", ".join("%s" % p for p, c in sorted(runs.items()) if c["exit"] == 0)
     rows.append("| %s | %s | %s | %s | %s | %s |" % (name, m.get("property", ""), (m.get("summary", "") or "").replace("|", "/").replace("\n", " ")[:230], (m.get("needs", "") or "").replace("|", "/").replace("\n", " ")[:200],
-                                                 "yes" if conf.get("confirmed") else ("fix-revert" if m.get("fix_revert") else "no"), det + ((" (not: " + miss + ")") if miss else "") + (" - OBSOLETE on the current tree: " + m["obsolete"][:160] if m.get("obsolete") else "") + (" - NOT RE-BASED: " + m["needs_rebase"][:120] if m.get("needs_rebase") else "")))
+                                                 "yes" if conf.get("confirmed") else ("fix-revert" if m.get("fix_revert") else "no"), det + ((" (not: " + miss + ")") if miss else "") + (" - OBSOLETE on the current tree: " + m["obsolete"][:160] if m.get("obsolete") else "") + (" - NOT RE-BASED: " + m["needs_rebase"][:120] if m.get("needs_rebase") else "") + (" - NOT A VIOLATION: " + m["not_a_violation"][:160] if m.get("not_a_violation") else "")))
 open("/verif/SEEDED.md", "w").write("# Seeded changes and the checks that catch them\n\nEach row is a change to alecthomas/participle that compiles and passes the repository's tests (confirmed in a scratch worktree: demo passes without, fails with; suite passes with). `detected by` lists the quick-tier checks that exit 1 with the change applied to /repo.\n\n| seed | property | change | needs | confirmed | detected by |\n|---|---|---|---|---|---|\n" + "\n".join(rows) + "\n")
 print(len(rows), "seeds")
